@@ -280,8 +280,11 @@ C01_GRAMMARS.append("x1")
 add(Gram("x2", None, short_flags="v", names=("v", ["verbose"], []), conv="string", note="switch + any(..).many(): every other item is collected"))
 add(Gram("x4", None, short_flags="abs", names=("abs", ["alpha", "beta", "sw"], []), note="choice of two flags that ends in fail(..), next to a switch"))
 
-add(Gram("kv", Level([Named("switch", "p", ["pour"]), Cmds([Cmd(["drink"], Level([Named("switch", "c", ["coffee"])]))], optional=True)]), short_flags="pc",
+_kv_drink = Cmd(["drink"], Level([Named("switch", "c", ["coffee"])]))
+_kv_drink.adjacent = True
+add(Gram("kv", Level([Named("switch", "p", ["pour"]), Cmds([_kv_drink], optional=True)]), short_flags="pc",
          note="repeated adjacent subcommand with its own version (the Level describes names and the command chain only; not used differentially)"))
+CORPUS["kv"].adjacent_cmds = True
 add(Gram("k5", None, short_flags="rs", short_args="w", names=("rsw", ["rect", "sw", "width"], []), note="switch, then optional adjacent group (flag + argument), then optional positional"))
 
 _hd_secret = Named("switch", "s", ["secret"])
